@@ -387,6 +387,18 @@ class Ex:
         return z3.And(*res) if len(res) > 1 else res[0]
 
     def cmp(self, op, a, b):
+        if isinstance(op, (ast.In, ast.NotIn)):
+            # membership in a literal tuple / list of scalars: disjunction of equalities
+            if not isinstance(b, (tuple, list)):
+                raise OutsideSubset('membership test in something other than a tuple/list of scalars')
+            eqs = [self.cmp(ast.Eq(), a, x) for x in b]
+            if all(isinstance(e, bool) for e in eqs):
+                r = any(eqs)
+                return r if isinstance(op, ast.In) else not r
+            r = z3.Or(*[R(e) for e in eqs]) if eqs else z3.BoolVal(False)
+            return r if isinstance(op, ast.In) else z3.Not(r)
+        if type(op) not in (ast.Eq, ast.NotEq, ast.Lt, ast.LtE, ast.Gt, ast.GtE, ast.Is, ast.IsNot):
+            raise OutsideSubset(f'comparison operator {type(op).__name__}')
         if isinstance(b, Concat) or isinstance(a, Concat):
             if isinstance(a, Concat):
                 raise OutsideSubset('array on the left of a comparison')
@@ -716,6 +728,12 @@ class Ex:
             if not isinstance(c, CondArr):
                 raise OutsideSubset('np.where of a non-comparison')
             return ('where-result', c)
+        if name in ('.any', '.all') and isinstance(f, ast.Attribute) and not n.args:
+            v = self.ev(f.value)
+            if isinstance(v, LocalArr):
+                nz = [toreal(R(x)) != 0 for x in v.vals]
+                return z3.Or(*nz) if name == '.any' else z3.And(*nz)
+            raise OutsideSubset(f'{name[1:]}() of a non-local array at line {n.lineno}')
         if name == 'len':
             v = self.ev(n.args[0])
             if isinstance(v, tuple):
@@ -762,7 +780,32 @@ class Ex:
             m = getattr(self, 'st_' + type(s).__name__, None)
             if m is None:
                 raise OutsideSubset(f'statement {type(s).__name__} at line {s.lineno}')
-            m(s)
+            skip = getattr(self, 'skipconds', None)
+            if skip:
+                # a `continue` was executed under some condition earlier in this iteration: the rest runs under its negation
+                if any(c is True for c in skip):
+                    return
+                self.guards.append(z3.Not(z3.Or(*skip)) if len(skip) > 1 else z3.Not(skip[0]))
+                try:
+                    m(s)
+                finally:
+                    self.guards.pop()
+            else:
+                m(s)
+
+    def run_iteration(self, body):
+        """one loop iteration: `continue` conditions are local to it"""
+        old = getattr(self, 'skipconds', None)
+        self.skipconds = []
+        try:
+            self.run(body)
+        finally:
+            self.skipconds = old
+
+    def st_Continue(self, s):
+        if getattr(self, 'skipconds', None) is None:
+            raise OutsideSubset('continue outside an interpreted loop')
+        self.skipconds.append(z3.And(*self.guards) if self.guards else True)
 
     def st_Pass(self, s):
         pass
@@ -997,7 +1040,7 @@ class Ex:
         if pol is None and None not in (clo, chi):
             for i in range(clo, chi, cst):
                 self.env[s.target.id] = i
-                self.run(s.body)
+                self.run_iteration(s.body)
             return
         if pol is None:
             # symbolic bounds but maybe decidable small count?  not attempted
@@ -1034,7 +1077,7 @@ class Ex:
                     self.havoc_loop_state(s, opts, n_it)
                 self.env[s.target.id] = var
                 self.take_snapshot(label + ':entry' + (str(n_it) if kind == 'symseq' else ''))
-                self.run(s.body)
+                self.run_iteration(s.body)
                 self.take_snapshot(label + (str(n_it) if kind == 'symseq' else ''))
             self.take_snapshot(label)
             if opts.get('stop'):
